@@ -60,3 +60,26 @@ MUTANTS["C07"] = {
     "zero_grad_on_nograd_child": [(T, "if child.requires_grad and (child._grad is None or not child.is_leaf):", "if child._grad is None or not child.is_leaf:")],
 }
 NEUTRAL["ctx_prev_as_local_tuple_stack"] = [(T, "        self.prev.append(gradient__)", "        self.prev = self.prev + [gradient__]")]
+
+MUTANTS["C08"] = {
+    "orig_sgd_buffer_aliases_grad": [(O, "self.momentum_buffer[i] = np.array(grad, copy=True)", "self.momentum_buffer[i] = grad")],
+    "orig_no_skip_sgd": [(O, "                # frozen parameters and parameters without a gradient are skipped\n                if not p.requires_grad or p._grad is None: continue\n                grad = p._grad\n", "                grad = p._grad\n")],
+    "skip_only_none_grad_adam": [(O, "                if not p.requires_grad or p._grad is None: continue\n                grad = -p._grad if self.maximize else p._grad   \n                    \n", "                if p._grad is None: continue\n                grad = -p._grad if self.maximize else p._grad   \n                    \n")],
+    "dampening_on_first_step": [(O, "self.momentum_buffer[i] = np.array(grad, copy=True)", "self.momentum_buffer[i] = (1.0 - self.dampening)*np.array(grad, copy=True)")],
+    "nesterov_uses_old_buffer": [(O, "                if self.momentum != 0:\n                    if self.momentum_buffer[i] is not None:", "                if self.momentum != 0:\n                    old_buf = self.momentum_buffer[i]\n                    if self.momentum_buffer[i] is not None:"),
+                                 (O, "grad = grad + self.momentum*self.momentum_buffer[i]", "grad = grad + self.momentum*(old_buf if old_buf is not None else self.momentum_buffer[i])")],
+    "adam_bias_exponent_t_minus_1": [(O, "                m1_corrected = self.m1[i] / (1.0 - self.beta1**self.t)\n                m2_corrected = self.m2[i] / (1.0 - self.beta2**self.t)\n\n                # Update the parameters using the Adam formula\n                p.data -= (self.lr * m1_corrected) / (np.sqrt(m2_corrected) + self.epsilon)\n                \n                \nclass AdamW", "                m1_corrected = self.m1[i] / (1.0 - self.beta1**max(self.t - 1, 1))\n                m2_corrected = self.m2[i] / (1.0 - self.beta2**self.t)\n\n                # Update the parameters using the Adam formula\n                p.data -= (self.lr * m1_corrected) / (np.sqrt(m2_corrected) + self.epsilon)\n                \n                \nclass AdamW")],
+    "adamw_decay_coupled": [(O, "                p.data -= self.lr*self.weight_decay*p.data\n", "                grad = grad + self.weight_decay*p.data\n")],
+    "adamw_decay_after_update": [(O, "                # Weight decay\n                p.data -= self.lr*self.weight_decay*p.data\n                    \n", "                \n"),
+                                 (O, "                p.data -= (self.lr * m1_corrected) / (np.sqrt(m2_corrected) + self.epsilon)", "                p.data -= (self.lr * m1_corrected) / (np.sqrt(m2_corrected) + self.epsilon)\n                p.data -= self.lr*self.weight_decay*p.data")],
+    "adam_maximize_ignored": [(O, "                grad = -p._grad if self.maximize else p._grad   \n                    \n", "                grad = p._grad   \n                    \n")],
+    "adam_eps_inside_sqrt": [(O, "                p.data -= (self.lr * m1_corrected) / (np.sqrt(m2_corrected) + self.epsilon)\n                \n                \nclass AdamW", "                p.data -= (self.lr * m1_corrected) / (np.sqrt(m2_corrected + self.epsilon))\n                \n                \nclass AdamW")],
+    "sgd_weight_decay_sign": [(O, "                    grad = grad + self.weight_decay*p.data\n                \n                # Momentum", "                    grad = grad - self.weight_decay*p.data\n                \n                # Momentum")],
+    "sgd_maximize_ignored_with_momentum": [(O, "                if self.maximize:\n                    p.data += self.lr*grad", "                if self.maximize and self.momentum == 0:\n                    p.data += self.lr*grad")],
+    "sgd_update_rebinds_data_as_f64": [(O, "                else:\n                    p.data -= self.lr*grad", "                else:\n                    p.data = p.data - np.float64(self.lr)*grad.astype(np.float64)")],
+    "adam_second_moment_uses_abs": [(O, "self.m2[i] = self.beta2 * self.m2[i] + (1.0 - self.beta2) * grad**2.0\n                \n                m1_corrected = self.m1[i] / (1.0 - self.beta1**self.t)\n                m2_corrected = self.m2[i] / (1.0 - self.beta2**self.t)\n\n                # Update the parameters using the Adam formula\n                p.data -= (self.lr * m1_corrected) / (np.sqrt(m2_corrected) + self.epsilon)\n                \n                \nclass", "self.m2[i] = self.beta2 * self.m2[i] + (1.0 - self.beta2) * np.abs(grad)\n                \n                m1_corrected = self.m1[i] / (1.0 - self.beta1**self.t)\n                m2_corrected = self.m2[i] / (1.0 - self.beta2**self.t)\n\n                # Update the parameters using the Adam formula\n                p.data -= (self.lr * m1_corrected) / (np.sqrt(m2_corrected) + self.epsilon)\n                \n                \nclass")],
+    # (Optimizer.zero_grad resetting only some parameters is C04's clause: mutant optimizer_zero_grad_skips_first there)
+    "momentum_buffer_shared_between_params": [(O, "                    if self.momentum_buffer[i] is not None:\n                        self.momentum_buffer[i] = self.momentum*self.momentum_buffer[i] + (1.0 - self.dampening)*grad", "                    j = i if grad.shape != getattr(self.momentum_buffer[0], 'shape', None) else 0\n                    if self.momentum_buffer[i] is not None:\n                        self.momentum_buffer[i] = self.momentum*self.momentum_buffer[j] + (1.0 - self.dampening)*grad")],
+}
+NEUTRAL["sgd_update_out_of_place_same_dtype"] = [(O, "                else:\n                    p.data -= self.lr*grad", "                else:\n                    p.data = (p.data - self.lr*grad).astype(p.data.dtype)")]
+NEUTRAL["adam_torch_code_form"] = [(O, "                p.data -= (self.lr * m1_corrected) / (np.sqrt(m2_corrected) + self.epsilon)\n                \n                \nclass AdamW", "                bc2 = (1.0 - self.beta2**self.t)\n                p.data -= (self.lr / (1.0 - self.beta1**self.t)) * self.m1[i] / (np.sqrt(self.m2[i]) / np.sqrt(bc2) + self.epsilon)\n                \n                \nclass AdamW")]
